@@ -11,6 +11,7 @@ import copy, json, os
 
 VERIF = os.path.dirname(os.path.dirname(os.path.abspath(__file__)))
 MAX_BLOCKS = 120
+OPTION_COMBINATORS = {'std::option::Option::<T>::and_then': 'and_then', 'std::option::Option::<T>::map': 'map'}
 CLOSURE_CALLS = ('std::ops::FnOnce::call_once', 'std::ops::Fn::call', 'std::ops::FnMut::call_mut')
 
 
@@ -94,7 +95,6 @@ def apply(F):
     F.inlined = []
     if known is None: return
     cand = candidates(F, known)
-    if not cand: return
     # drop (mutually) recursive candidates
     def reaches(a, seen):
         for _, cn in _calls(F, F.bodies[a]):
@@ -114,6 +114,23 @@ def apply(F):
     # closures handed to an inlined helper (`self.helper(f, |r| r.is_err())`): once the helper is spliced in, the closure value is a
     # local aggregate and its call is `FnOnce::call_once(move _p, (args,))`; splice the (new) closure body in as well
     touched = {x[0] for x in F.inlined}
+    # Option::and_then / Option::map given a NEW closure (one the reviewed tree does not have): expanded to the `match` they abbreviate,
+    # with the closure body spliced in, so `opt.and_then(|x| f(x))` and `match opt { Some(x) => f(x), None => None }` present the same MIR
+    for name, b in list(F.bodies.items()):
+        if name in cand: continue
+        for _ in range(8):
+            did = False
+            for bi, blk in enumerate(b['blocks']):
+                t = blk['term']
+                if t['t'] != 'call' or t['f'].get('o') != 'const' or t['f'].get('fn') not in OPTION_COMBINATORS or len(t['args']) != 2: continue
+                path = _closure_of(b, t['args'][1])
+                if path is None: continue
+                cn = b['crate'] + '::' + path
+                K = F.bodies.get(cn)
+                if K is None or cn in known or len(K['blocks']) > MAX_BLOCKS or K.get('argc') != 2: continue
+                if _expand_option_combinator(F, b, bi, K, OPTION_COMBINATORS[t['f']['fn']]):
+                    F.inlined.append((name, cn)); touched.add(name); did = True; break
+            if not did: break
     for name in sorted(touched):
         b = F.bodies.get(name)
         if b is None: continue
@@ -216,6 +233,17 @@ def _inline_closure_call(F, caller, bi, callee):
             src = copy.deepcopy(tup['p']); src['proj'] = list(src.get('proj', [])) + [{'p': 'field', 'i': k}]; src['ty'] = K['locals'][k + 2]['s']
             a_ = {'o': 'move', 'p': src}
         st.append({'s': 'assign', 'lhs': {'l': dl + k + 2, 'proj': [], 'ty': K['locals'][k + 2]['s']}, 'rv': {'r': 'use', 'a': a_}, 'span': t['span']})
+    # captured variables: when the environment is an aggregate built in the caller, `env.i` / `(*env).i` in the body is the captured operand itself
+    caps = _closure_captures(caller, env)
+    if caps:
+        def sub(p):
+            if p.get('l') != dl + 1: return
+            pr = p.get('proj', [])
+            k = 1 if pr and pr[0].get('p') == 'deref' else 0
+            if len(pr) > k and pr[k].get('p') == 'field' and pr[k]['i'] < len(caps) and caps[pr[k]['i']] is not None:
+                src = caps[pr[k]['i']]
+                p['l'] = src['l']; p['proj'] = copy.deepcopy(src.get('proj', [])) + pr[k + 1:]
+        for blk in K['blocks']: _map_places(blk, sub)
     for blk in K['blocks']:
         if blk['term']['t'] == 'return':
             blk['stmts'].append({'s': 'assign', 'lhs': copy.deepcopy(t['dest']), 'rv': {'r': 'use', 'a': {'o': 'move', 'p': {'l': dl, 'proj': [], 'ty': K['locals'][0]['s']}}}, 'span': t['span']})
@@ -226,6 +254,46 @@ def _inline_closure_call(F, caller, bi, callee):
         caller.setdefault('debug', {})[str(int(l) + dl)] = nm
     caller['blocks'][bi]['term'] = {'t': 'goto', 'to': db}
     return True
+
+
+def _closure_captures(b, operand):
+    """places captured by the closure value `operand` (None where the capture is not a plain place), if it is built by one aggregate in b"""
+    for _ in range(24):
+        if operand.get('o') not in ('copy', 'move'): return None
+        p = operand['p']
+        if any(e['p'] != 'deref' for e in p.get('proj', [])): return None
+        defs = [s for blk in b['blocks'] for s in blk['stmts'] if s['s'] == 'assign' and s['lhs']['l'] == p['l']]
+        if len(defs) != 1 or defs[0]['lhs'].get('proj'): return None
+        rv = defs[0]['rv']
+        if rv['r'] == 'agg' and rv['kind'].get('a') == 'closure':
+            return [(o['p'] if o.get('o') in ('copy', 'move') else None) for o in rv['ops']]
+        if rv['r'] == 'use': operand = rv['a']
+        elif rv['r'] == 'ref': operand = {'o': 'copy', 'p': rv['p']}
+        else: return None
+    return None
+
+
+def _map_places(blk, fn):
+    def op(o):
+        if isinstance(o, dict) and o.get('o') in ('copy', 'move') and 'p' in o: fn(o['p'])
+    for s in blk['stmts']:
+        if s['s'] == 'assign':
+            fn(s['lhs']); rv = s['rv']
+            for k in ('a', 'b'):
+                if k in rv and isinstance(rv[k], dict): op(rv[k])
+            if 'p' in rv and isinstance(rv['p'], dict) and 'l' in rv['p']: fn(rv['p'])
+            for o in rv.get('ops', []) or []: op(o)
+        elif s['s'] == 'setdiscr': fn(s['p'])
+    t = blk['term']
+    if t['t'] == 'switch': op(t['on'])
+    elif t['t'] == 'assert':
+        op(t['cond'])
+        for o in t.get('ops', []): op(o)
+    elif t['t'] == 'call':
+        op(t['f'])
+        for a in t['args']: op(a)
+        fn(t['dest'])
+    elif t['t'] == 'drop' and isinstance(t.get('p'), dict): fn(t['p'])
 
 
 def _const_of(b, operand):
@@ -292,3 +360,44 @@ def _thread_jumps(b):
             A['term'] = {'t': 'goto', 'to': to}
             did = True
         if not did: break
+
+
+def _expand_option_combinator(F, caller, bi, closure, kind):
+    """`dest = opt.and_then(clo)` / `opt.map(clo)`  ->  switch discriminant(opt) { None: dest = None; Some: dest = [Some](clo(payload)) }"""
+    t = caller['blocks'][bi]['term']
+    opt, clo = t['args']
+    if opt.get('o') not in ('copy', 'move') or opt['p'].get('proj'): return False
+    cont = t.get('to')
+    if cont is None: return False
+    span = t['span']
+    oty = opt['p'].get('ty', '')
+    dest = t['dest']
+    nl = len(caller['locals'])
+    # new locals: discriminant, payload, argument tuple, closure result (for map)
+    pay_ty = closure['locals'][2]
+    caller['locals'].append({'s': 'isize', 't': {'k': 'int', 's': True, 'bits': 64}})   # nl: discriminant
+    caller['locals'].append(copy.deepcopy(pay_ty))                                   # nl+1: payload
+    caller['locals'].append({'s': '(%s,)' % pay_ty['s'], 't': {'k': 'tuple', 'of': [copy.deepcopy(pay_ty)]}})       # nl+2: argument tuple
+    caller['locals'].append(copy.deepcopy(closure['locals'][0]))                     # nl+3: closure result
+    nb = len(caller['blocks'])
+    b_none, b_some, b_after = nb, nb + 1, nb + 2
+    blk = caller['blocks'][bi]
+    blk['stmts'].append({'s': 'assign', 'lhs': {'l': nl, 'proj': [], 'ty': 'isize'}, 'rv': {'r': 'discr', 'p': copy.deepcopy(opt['p'])}, 'span': span})
+    blk['term'] = {'t': 'switch', 'on': {'o': 'move', 'p': {'l': nl, 'proj': [], 'ty': 'isize'}}, 'arms': [['0', b_none]], 'otherwise': b_some, 'span': span}
+    none_agg = {'r': 'agg', 'kind': {'a': 'adt', 'path': 'std::option::Option', 'variant': 0, 'vname': 'None', 'ufield': None}, 'ops': []}
+    caller['blocks'].append({'stmts': [{'s': 'assign', 'lhs': copy.deepcopy(dest), 'rv': none_agg, 'span': span}], 'term': {'t': 'goto', 'to': cont}})
+    pay = copy.deepcopy(opt['p']); pay['proj'] = [{'p': 'downcast', 'v': 1, 'name': 'Some'}, {'p': 'field', 'i': 0}]; pay['ty'] = pay_ty['s']
+    some_stmts = [{'s': 'assign', 'lhs': {'l': nl + 1, 'proj': [], 'ty': pay_ty['s']}, 'rv': {'r': 'use', 'a': {'o': 'move', 'p': pay}}, 'span': span},
+                  {'s': 'assign', 'lhs': {'l': nl + 2, 'proj': [], 'ty': '(%s,)' % pay_ty['s']},
+                   'rv': {'r': 'agg', 'kind': {'a': 'tuple'}, 'ops': [{'o': 'move', 'p': {'l': nl + 1, 'proj': [], 'ty': pay_ty['s']}}]}, 'span': span}]
+    res = {'l': nl + 3, 'proj': [], 'ty': closure['locals'][0]['s']}
+    call_dest = copy.deepcopy(dest) if kind == 'and_then' else res
+    fake = {'t': 'call', 'f': {'o': 'const', 'fn': 'std::ops::FnOnce::call_once'}, 'args': [clo, {'o': 'move', 'p': {'l': nl + 2, 'proj': [], 'ty': '(%s,)' % pay_ty['s']}}],
+            'dest': call_dest, 'to': b_after, 'span': span}
+    caller['blocks'].append({'stmts': some_stmts, 'term': fake})
+    after_stmts = []
+    if kind == 'map':
+        after_stmts.append({'s': 'assign', 'lhs': copy.deepcopy(dest),
+                            'rv': {'r': 'agg', 'kind': {'a': 'adt', 'path': 'std::option::Option', 'variant': 1, 'vname': 'Some', 'ufield': None}, 'ops': [{'o': 'move', 'p': res}]}, 'span': span})
+    caller['blocks'].append({'stmts': after_stmts, 'term': {'t': 'goto', 'to': cont}})
+    return _inline_closure_call(F, caller, b_some, closure)
